@@ -451,7 +451,7 @@ def fam_ranges(rng, tier, i):
         # the handle of a reopened series, a read that stops before the end of the data, an append, range reads again:
         # the appended line lands behind the others whatever the reads did before
         t_new = tss[-1] + rng.choice([1, 2, 65534, 65535, 70000])
-        if t_new < U64:
+        if t_new < U64 and avoids_marker_tail(p, tss + [t_new]):      # a reopen inside the marker-word class is known finding D6, not this family's subject
             mid = tss[rng.randrange(0, n - 1)]
             s += ["close", open_line("r"), rng.choice(["read_all u i%d" % mid, "read_first_n 1 u u", "n_lines u i%d" % mid]),
                   "push %d %s" % (t_new, hexb(payload(rng, p))), "read_all i%d u" % mid, "read_all u e%d" % t_new,
